@@ -160,8 +160,52 @@ def _run_main(ctx):
         shutil.rmtree(tmpdir, ignore_errors=True)
 
 
+def _copies_are_independent(ctx):
+    """metadata of a graph / sub-graph / node with nesting depth >= 2: a copy made through the dictionary form (or a file)
+    is edited in place at every depth; the original - its metadata, and the file written from it - stays what it was"""
+    import io
+    import copy
+    import numpy as np
+    import nir
+    import compare
+    rng = ctx.rng
+    for _ in range(ctx.n(30, 150)):
+        deep = lambda: {"training": {"lr": 0.1, "schedule": {"steps": np.arange(3), "extra": "x"}}, "tags": {"a": {"b": 1}},
+                        "arr": np.ones(2)}
+        sub = nir.NIRGraph(nodes={"s": nir.Scale(np.ones(2), metadata=deep())}, edges=[], metadata=deep())
+        g = nir.NIRGraph(nodes={"sub": sub, "t": nir.Threshold(np.ones(2), metadata=deep())}, edges=[("sub", "t")], metadata=deep())
+        how = rng.choice(["dict", "dict", "file", "to_dict_only"])
+        case = {"op": "metadata_copy_independence", "via": how}
+        ctx.case(case); ctx.count("metadata_copy_independence")
+        before = compare.snapshot(g)
+        b0 = io.BytesIO(); nir.write(b0, g)
+        try:
+            if how == "dict":
+                cp = nir.NIRGraph.from_dict(g.to_dict()); tops = [cp.metadata, cp.nodes["sub"].metadata, cp.nodes["sub"].nodes["s"].metadata, cp.nodes["t"].metadata]
+            elif how == "file":
+                b0.seek(0); cp = nir.read(b0); tops = [cp.metadata, cp.nodes["sub"].metadata, cp.nodes["t"].metadata]
+            else:
+                d = g.to_dict(); tops = [d["metadata"], d["nodes"]["sub"]["metadata"], d["nodes"]["t"]["metadata"]]
+            for m in tops:
+                m["training"]["lr"] = 99.0
+                m["training"]["schedule"]["extra"] = "changed"
+                np.asarray(m["training"]["schedule"]["steps"])[...] = 7
+                m["tags"]["a"]["b"] = 2
+                np.asarray(m["arr"])[...] = 5
+                m["new"] = 1
+        except Exception as e:  # noqa
+            ctx.violate(case, "copying a graph with nested metadata raised", {"site": "metadata-copy", "what": "raised"},
+                        observed=f"{type(e).__name__}: {e}"); continue
+        b1 = io.BytesIO(); nir.write(b1, g)
+        same_file = compare.graph_diff(nir.read(io.BytesIO(b0.getvalue())), nir.read(io.BytesIO(b1.getvalue()))) == []
+        if compare.snapshot(g) != before or not same_file:
+            ctx.violate(case, "editing the metadata of a copy (made through " + how + ") changed the original graph's metadata",
+                        {"site": "metadata-copy", "what": "alias", "via": how})
+
+
 def run(ctx):
     _run_main(ctx)
+    _copies_are_independent(ctx)
     # history independence: the same call on a live graph object with a history of edits / calls and on a twin rebuilt
     # from its public state (harness/history.py)
     import history
